@@ -340,6 +340,14 @@ func (ex *Explorer) AtomOf(st *State, v ssa.Value) *Atom {
 		switch x.Op {
 		case token.EQL, token.NEQ:
 			neg := x.Op == token.NEQ
+			// an interface built by boxing a concrete value is never nil, whatever it boxes
+			if isNilConst(ex.Resolve(st, x.Y)) || isNilConst(ex.Resolve(st, x.X)) {
+				for _, side := range []ssa.Value{x.X, x.Y} {
+					if _, boxed := ex.resolveKeepBox(st, side).(*ssa.MakeInterface); boxed {
+						return &Atom{Const: bptr(neg)}
+					}
+				}
+			}
 			l, r := ex.Resolve(st, x.X), ex.Resolve(st, x.Y)
 			if isNilConst(l) && !isNilConst(r) {
 				l, r = r, l
@@ -350,6 +358,11 @@ func (ex *Explorer) AtomOf(st *State, v ssa.Value) *Atom {
 				}
 				if definitelyNonNil(l) {
 					return &Atom{Const: bptr(neg)}
+				}
+				if ld, ok := l.(*ssa.UnOp); ok && ld.Op == token.MUL {
+					if g, ok := ld.X.(*ssa.Global); ok && globalNeverNil(ex.P, g) {
+						return &Atom{Const: bptr(neg)}
+					}
 				}
 				ce := ex.Canon(st, l)
 				return &Atom{Kind: "nil", X: ce.S, Neg: neg, Deps: ce.Deps, Reads: ce.Reads, XV: l}
@@ -999,4 +1012,38 @@ func staticLen(v ssa.Value) (int64, bool) {
 		return staticLen(x.X)
 	}
 	return 0, false
+}
+
+// resolveKeepBox resolves phis and tracked locals like Resolve but stops at
+// the boxing of a concrete value into an interface.
+func (ex *Explorer) resolveKeepBox(st *State, v ssa.Value) ssa.Value {
+	for i := 0; i < 30; i++ {
+		switch x := v.(type) {
+		case *ssa.Phi:
+			if st != nil {
+				if k, ok := st.phis[x]; ok && k >= 0 && k < len(x.Edges) {
+					v = x.Edges[k]
+					continue
+				}
+			}
+			return v
+		case *ssa.ChangeInterface:
+			v = x.X
+			continue
+		case *ssa.UnOp:
+			if x.Op == token.MUL && st != nil {
+				c := &canonCtx{ex: ex, st: st, deps: map[ssa.Value]bool{}}
+				p := c.loc(x.X)
+				if strings.HasPrefix(p, "new@") {
+					if e, ok := st.lookupStore(p); ok && e.suffix == "" && e.ce.V0 != nil {
+						v = e.ce.V0
+						continue
+					}
+				}
+			}
+			return v
+		}
+		return v
+	}
+	return v
 }
